@@ -5,8 +5,8 @@
    options, remove, contains, dispatch); [srun sinit ops] is the registration-log specification;
    both return the list of results (the calls made by every dispatch, the result of every remove and
    contains).  [guard sinit ops = true] restricts the sequences to single-inheritance hierarchies in
-   which a class-level listen() neither repeats a live (class, fn) pair nor registers an unwrapped
-   function that is live on an ancestor or descendant class; each excluded region has a refutation.
+   which a class-level listen() does not register an unwrapped function that is live on an ancestor
+   or descendant class; each excluded region has a refutation.
 
    Concurrent part (ExecOnce.v): [xreach (s, ts)] = some schedule of some number of threads calling
    exec_once / exec_once_unless_exception / _exec_w_sync_on_first_run leads to the state (s, ts). *)
@@ -108,16 +108,17 @@ Theorem c28_late_diamond_remove_raises_refuted :
 Proof. vm_compute. split; reflexivity. Qed.
 Print Assumptions c28_late_diamond_remove_raises_refuted.
 
-(* (g2) listen() twice for the same (class, fn): called twice; after one remove() a copy stays that
-   contains() does not know and remove() cannot reach *)
+(* formerly a refutation (C28-class-double-listen, repaired): listen() twice for the same (class, fn) -
+   the repeat is ignored, one remove() undoes the registration; the sequence is inside the guard and
+   the model agrees with the specification *)
 Definition c28_double : list op :=
   [NewClass [] []; Listen (TCls 0) 0 c28_fl; Listen (TCls 0) 0 c28_fl; NewInst 0; Dispatch 0;
    Remove (TCls 0) 0; Contains (TCls 0) 0; Dispatch 0; Remove (TCls 0) 0].
-Theorem c28_class_double_listen_refuted :
-  skipn 4 (snd (run init c28_double)) = [OCalls [0; 0]; OOk; OBool false; OCalls [0]; OInvalidRequest] /\
-  skipn 4 (snd (srun sinit c28_double)) = [OCalls [0]; OOk; OBool false; OCalls []; OInvalidRequest].
-Proof. vm_compute. split; reflexivity. Qed.
-Print Assumptions c28_class_double_listen_refuted.
+Example c28_class_double_listen_fixed :
+  guard sinit c28_double = true /\
+  skipn 4 (snd (run init c28_double)) = [OCalls [0]; OOk; OBool false; OCalls []; OInvalidRequest] /\
+  snd (run init c28_double) = snd (srun sinit c28_double).
+Proof. vm_compute. repeat split; reflexivity. Qed.
 
 (* (g3) f on the base, g on the subclass, f on the subclass; remove(subclass, f) deletes the FIRST f of
    the subclass's deque: the surviving call of f moves behind g *)
@@ -133,7 +134,7 @@ Print Assumptions c28_remove_shared_fn_order_refuted.
 (* each witness leaves the guard, and only through the clause named *)
 Example c28_witnesses_outside_guard :
   guard sinit c28_late = false /\ guard sinit c28_late_dedup = false /\
-  guard sinit c28_double = false /\ guard sinit c28_shared = false /\
+  guard sinit c28_shared = false /\
   guard sinit (c28_abc ++ c28_regs) = true.
 Proof. vm_compute. repeat split; reflexivity. Qed.
 
